@@ -192,7 +192,7 @@ func gen(r *rand.Rand, tier string, n int) []any {
 			in.Via = "shim"
 			in.Endpoints = genLayout(r, 12)
 			in.Spn = int(common.Pick(r, int64(1), 1, 2, 3, 5, 8, 16))
-			if tier == "thorough" && r.Intn(10) == 0 {
+			if tier == "thorough" && r.Intn(40) == 0 {
 				in.Spn = 64
 			}
 		}
@@ -213,6 +213,6 @@ func gen(r *rand.Rand, tier string, n int) []any {
 }
 
 func main() {
-	common.Main(common.Prop{ID: "C19", Facts: facts, Gen: gen, Run: run, QuickN: 500, ThoroughN: 8000,
+	common.Main(common.Prop{ID: "C19", Facts: facts, Gen: gen, Run: run, QuickN: 500, ThoroughN: 2500,
 		CaseTimeout: 10 * time.Second})
 }
